@@ -174,6 +174,7 @@ def main(ctx: Ctx) -> int:
         trees.append(("witness", w))
     for _ in range(300 if ctx.quick else 5000):
         trees.append(("random", gen_tree(rng, 3)))
+    trees += [("again", t) for _, t in trees[:60]]       # second pass: the first trees again at the end of the run (same process)
     traces = []
     for origin, t in trees:
         text = fprint(t, rng)
